@@ -43,7 +43,7 @@ FEAT = gen.feat(
 
 import re  # noqa: E402
 
-_DEP = re.compile(r"^P[0-9]+$")
+_DEP = re.compile(r"^(P\d+|Rem)$")
 
 
 def monitored_codes():
